@@ -71,7 +71,7 @@ EV = {"show_cursor(False)": 1, "enable": 2, "push": 3, "started=True": 4, "refre
       "visible": 7, "visible_unless_transient": 8, "restore_if_transient": 9,
       "show_cursor(True)": 11, "disable": 12, "pop": 13, "started=False": 14, "shape=None": 15,
       "save_overflow": 16, "restore_overflow": 17,
-      "try": 20, "finally": 21, "except_all": 22, "end_try": 23, "reraise": 24,
+      "try": 20, "finally": 21, "except_all": 22, "end_try": 23, "reraise": 24, "except_exception": 25,
       "guard_started": 30, "guard_not_started": 31}
 
 
@@ -115,7 +115,9 @@ def _events(stmts, fn):
             for h in s.handlers:
                 if h.type is not None and _src(h.type) not in ("BaseException", "Exception"):
                     raise Untranslatable(f"{fn}: except {_src(h.type)}")
-                out.append(EV["except_all"])
+                # `except:` / `except BaseException:` catch everything; `except Exception:` lets
+                # KeyboardInterrupt, SystemExit, GeneratorExit through
+                out.append(EV["except_all"] if h.type is None or _src(h.type) == "BaseException" else EV["except_exception"])
                 out += _events(h.body, fn)
             if s.finalbody:
                 out.append(EV["finally"])
@@ -153,7 +155,7 @@ def _guarded(events):
     if EV["end_try"] not in tail:
         return False
     handler = tail[:tail.index(EV["end_try"])]
-    cut = [k for k, e in enumerate(handler) if e in (EV["finally"], EV["except_all"])]
+    cut = [k for k, e in enumerate(handler) if e in (EV["finally"], EV["except_all"], EV["except_exception"])]
     if not cut:
         return False
     h = handler[cut[0]:]
@@ -161,6 +163,26 @@ def _guarded(events):
     if not need.issubset(h):
         return False
     return EV["finally"] in h or EV["reraise"] in h
+
+
+def _catches_base(events):
+    """does the cleanup around the refresh of start() also run for exceptions that are not Exception
+    subclasses?  (a `finally`, a bare `except:` or `except BaseException:` -- not `except Exception:`)"""
+    if EV["refresh"] not in events:
+        return True
+    tail = events[events.index(EV["refresh"]):]
+    if EV["end_try"] not in tail:
+        return False
+    handler = tail[:tail.index(EV["end_try"])]
+    need = {EV["pop"], EV["disable"], EV["show_cursor(True)"]}
+    for code in (EV["finally"], EV["except_all"]):
+        if code in handler:
+            h = handler[handler.index(code):]
+            nxt = [k for k, e in enumerate(h[1:], 1) if e in (EV["finally"], EV["except_all"], EV["except_exception"])]
+            h = h[:nxt[0]] if nxt else h
+            if need.issubset(h):
+                return True
+    return False
 
 
 def _restores_overflow(events):
@@ -334,6 +356,8 @@ def gen_live_codes(repo):
     out.append("\n(* is the first refresh of start() inside a try whose handler undoes hook, io and cursor? *)\n")
     out.append(f"Definition progress_start_guarded : bool := {'true' if _guarded(ev['progress_start']) else 'false'}.\n")
     out.append(f"Definition live_start_guarded : bool := {'true' if _guarded(ev['live_start']) else 'false'}.\n")
+    out.append("(* ... and that handler also runs for KeyboardInterrupt / SystemExit (finally, bare except, except BaseException) *)\n")
+    out.append(f"Definition start_cleanup_catches_base : bool := {'true' if _catches_base(ev['progress_start']) else 'false'}.\n")
     out.append(f"Definition live_stop_visible_unless_transient : bool := "
                f"{'true' if EV['visible_unless_transient'] in ev['live_stop'] else 'false'}.\n")
     b = lambda x: "true" if x else "false"
